@@ -61,6 +61,15 @@ def replay_case(am, uc, DM, h):
             phys = np.array(val, dtype=float)
             internal = uc.set_in_units(val, unit) if unit else val
             arg = internal if ob['shape'] or unit else (float(internal) if ob['kind'] == 'float' else int(internal))
+            if len(ob['shape']) >= 2:
+                # the same values in another memory layout (Fortran order, or a transposed view of the transposed copy): a value is its
+                # entries by index, not its buffer
+                import zlib
+                lay = zlib.crc32(json.dumps(ob, sort_keys=True).encode()) % 3
+                if lay == 1:
+                    arg = np.asfortranarray(internal)
+                elif lay == 2:
+                    arg = np.ascontiguousarray(np.asarray(internal).T).T
             if len(ob['shape']) == 1 and unit is None and (len(json.dumps(ob)) % 2 == 0):
                 arg = internal.tolist()
             model = DM([('quantity', uc.model(arg, unit))])
